@@ -234,7 +234,7 @@ func main() {
 	sides, ancestors := coretree.SmallScope()
 	nScope, nRandom, nHist := 900, 700, 60
 	if cfg.Thorough() {
-		nScope, nRandom, nHist = 60000, 40000, 3000
+		nScope, nRandom, nHist = 45000, 30000, 2000
 	}
 	pick := func(anc *core.Entry) *core.Entry {
 		if r.Intn(3) == 0 {
